@@ -180,13 +180,12 @@ def run(ctx):
             return (e.k == "call" and e.a[0].endswith("unwrap_or_default")) or (e.k == "field" and strip_refs(e.a[0]).k == "downcast")
         sw = switches_on(sb, first_char)
         sw = [x for x in sw if x[1]["discr_ty"] == "char"]
-        if len(sw) != 1:
-            r4.undecidable("table", "first-letter match not found uniquely (%d)" % len(sw), common.fn_line(prog, search))
-        else:
+        arms = None
+        bb = None
+        if len(sw) == 1:
             bb, t = sw[0]
             # the table-name local: the &str assigned in the arms
             arms = {}
-            tgt_local = None
             for (node, vals, tgt) in sb.switch_edges(bb):
                 if vals == "otherwise":
                     continue
@@ -197,6 +196,35 @@ def run(ctx):
                         lit = s_["rv"]["op"]["str"]
                 for v in vals:
                     arms[chr(v)] = lit
+        else:
+            # the same table as a constant array of (letter, table name) rows searched with `find(|(letter, _)| *letter == first)`
+            for (fbb, ft) in sb.calls():
+                if not (callee_name(ft).endswith("Iterator>::find") or callee_name(ft).endswith("Iterator::find")) or len(ft["args"]) != 2:
+                    continue
+                it_e = sb.expr_operand(ft["args"][0])
+                clo = strip_refs(sb.expr_operand(ft["args"][1]))
+                tv = None
+                for x in it_e.walk():
+                    if x.k == "const" and isinstance(x.t, dict) and "value" in x.t and "array" in x.t["value"]:
+                        tv = x.t["value"]["array"]
+                if tv is None or not (clo.k == "agg" and str(clo.a[0]).startswith("closure:")):
+                    continue
+                shape = PredEval(prog)._eq_closure_shape(clo.a[0][8:])
+                ups = [strip_refs(u) for u in clo.a[1]]
+                if shape is None or len(shape[0]) != 1 or shape[1] >= len(ups) or not first_char(strip_refs(ups[shape[1]])):
+                    continue
+                ki = shape[0][0]
+                rows_ok = all("tuple" in r_ and len(r_["tuple"]) == 2 and isinstance(r_["tuple"][ki], dict) and "cp" in r_["tuple"][ki]
+                              and isinstance(r_["tuple"][1 - ki], dict) and "str" in r_["tuple"][1 - ki] for r_ in tv)
+                if not rows_ok:
+                    continue
+                arms = {}
+                for r_ in tv:
+                    arms.setdefault(chr(r_["tuple"][ki]["cp"]), r_["tuple"][1 - ki]["str"])
+                bb = fbb
+        if arms is None:
+            r4.undecidable("table", "first-letter match not found uniquely (%d)" % len(sw), common.fn_line(prog, search))
+        else:
             pairs_data = set()
             for tname, words in dic.items():
                 for w in words:
